@@ -107,7 +107,7 @@ Definition table_ok (s : sched) : bool :=
 
 Definition dObs : dec robs :=
   let* sp := dSpec in let* l := dOpt dZ in let* a := dList dRef in let* js := dList dJob in
-  let* now := dZ in let* cr := dList (dPair dZ dZ) in let* dl := dList dZ in let* aa := dList dRef in
+  let* now := dZ in let* cr := dList (dPair dZ dZ) in let* dl := dList (dPair dZ dBool) in let* aa := dList dRef in
   ret (mkObs sp l a js now cr dl aa).
 
 Definition entry (sel : Z) (toks : list Z) : list Z :=
